@@ -45,7 +45,9 @@ type c06Case struct {
 // bracketed alternatives cannot match (dead alternatives, e.g. the Apache-2.0 boilerplate line stays ordinary text).
 // They are therefore not "copyright notices" in the sense of the property and are not used.
 var c06Notices = []string{"Copyright 2019 Foo", "Copyright (c) 2001, 2002 Foo Inc.", "// Copyright © 2020 X", "(c) Copyright 1999 Y",
-	" * Copyright 2015-2017 The Authors. All rights reserved.", "# COPYRIGHT 2003, Example Corp", "Copyright 1987, 1988 by Somebody", ";; copyright (C) 2010. Someone Else"}
+	" * Copyright 2015-2017 The Authors. All rights reserved.", "# COPYRIGHT 2003, Example Corp", "Copyright 1987, 1988 by Somebody", ";; copyright (C) 2010. Someone Else",
+	// up to five characters in front of the word, counted in characters, not bytes
+	"版权 Copyright (c) 2020 Example Co", "Авт. Copyright 2020, Example", "Ôter Copyright 2020 Example"}
 var c06Dates = []string{"2019-03-14", "2019-mar-14", "1999-12-31", "2001-JAN-01"}
 var c06Markers = []string{"1.", "12.", "a.", "iv.", "xiii.", "3.1.", "1.2.3.", "1)", "b:", "2:", "r.", "ix:", "10)"}
 var c06LetterParen = []string{"a)", "c)", "iv)"} // known finding F13: <letter>) is deliberately not stripped
@@ -553,6 +555,6 @@ func c06OnlyCompetingDiffer(a, b []mrec) bool {
 
 func TestVerif_C06(t *testing.T) {
 	lib.Run(t, lib.Spec{ID: "C06", Part: "ignorable-text",
-		Rule: "X = generated license-bearing input; 1-3 operations, each at 1-12 drawn positions: insert a copyright-notice line (8 templates) or an ISO date line, prefix a line with a list marker (13 markers; <letter>) only once finding F13 is closed), split a word across two lines with a trailing hyphen, swap a word for its interchangeable spelling (35 pairs, both directions, independent copy of the table), switch http/https; positions restricted by independent, generous predicates (not on/after hyphen-ended lines, markers and splits not on notice-like lines nor before words ending in . : ), counted); oracle: token ids unchanged, licenses (names, variants, confidences, token spans, mapped lines unless a split added a line) unchanged, every inserted notice outside all reported license spans reported exactly once as Copyright on its line, no Copyright entry on other lines; non-trivial = X has a license match and an operation was applied",
+		Rule: "X = generated license-bearing input; 1-3 operations, each at 1-12 drawn positions: insert a copyright-notice line (11 templates, three with a non-ASCII lead-in) or an ISO date line, prefix a line with a list marker (13 markers; <letter>) only once finding F13 is closed), split a word across two lines with a trailing hyphen, swap a word for its interchangeable spelling (35 pairs, both directions, independent copy of the table), switch http/https; positions restricted by independent, generous predicates (not on/after hyphen-ended lines, markers and splits not on notice-like lines nor before words ending in . : ), counted); oracle: token ids unchanged, licenses (names, variants, confidences, token spans, mapped lines unless a split added a line) unchanged, every inserted notice outside all reported license spans reported exactly once as Copyright on its line, no Copyright entry on other lines; non-trivial = X has a license match and an operation was applied",
 		New:  func() interface{} { return &c06Case{} }, Gen: c06Gen, Check: c06Check})
 }
